@@ -4,7 +4,7 @@ import ast
 from ..core.model import AnchorError
 from ..core.cfg import walk_shallow, cfg_of
 from ..core.facts import U
-from ..engine import fn_name, kwarg, local_defs, returns_of
+from ..engine import fn_name, kwarg, local_defs, returns_of, vars_assigned_from, var_from_call, flows_into
 from ..kinds.taint import tainted_returns
 from ..kinds import shapes
 
@@ -38,7 +38,8 @@ def s1(ctx, rep):
     if ok:
         v = r[0].value.elts[1]
         inner = [x for x in ast.walk(v) if isinstance(x, ast.Call) and fn_name(x) == "maximum"]
-        ok = len(inner) == 1 and "MIN_POSTERIOR_VARIANCE" in U(inner[0]) and "posterior_variances" in U(inner[0])
+        ok = len(inner) == 1 and "MIN_POSTERIOR_VARIANCE" in U(inner[0]) and \
+            flows_into(f, inner[0].args[0], lambda y: isinstance(y, ast.Call) and fn_name(y) == "diagonal")
     rep.put(ok, "S1", "taint", "predict_posterior_marginals: variances returned through maximum(., MIN_POSTERIOR_VARIANCE)", f, r[0] if r else None, "",
             "a predictive variance can be returned without the floor: round-off makes it negative / zero and the acquisition functions "
             "divide by its square root")
@@ -88,18 +89,24 @@ def s2(ctx, rep):
     ok = bool(_depends(f, used, ["pred_mat"]))
     rep.put(ok, "S2", "noninterference", "predict_posterior_marginals: means depend on pred_mat", f, m, "")
     g = P.func(MODP + "cholesky_computations")
-    bad = _depends(g, ["chol_fact"], ["targets"])
+    cr = [r.value for r in returns_of(g) if isinstance(r.value, ast.Tuple) and len(r.value.elts) == 2]
+    if not cr:
+        raise AnchorError("cholesky_computations does not return (factor, prediction matrix)")
+    cfn, pmn = U(cr[0].elts[0]), U(cr[0].elts[1])
+    bad = _depends(g, [cfn], ["targets"])
     rep.put(not bad, "S2", "noninterference", "cholesky_computations: the Cholesky factor does not depend on the targets", g, None, "",
             "the factor depends on the targets: independent target columns would interact")
-    pm = [d for d in local_defs(g, "pred_mat") if not isinstance(d, tuple)]
-    ok = len(pm) == 1 and isinstance(pm[0], ast.Call) and fn_name(pm[0]) == "solve_triangular" and U(pm[0].args[0]) == "chol_fact" and \
+    pm = [d for d in local_defs(g, pmn) if not isinstance(d, tuple)]
+    ok = len(pm) == 1 and isinstance(pm[0], ast.Call) and fn_name(pm[0]) == "solve_triangular" and U(pm[0].args[0]) == cfn and \
         U(kwarg(pm[0], "lower")) == "True"
     if ok:
         cy = [d for d in local_defs(g, U(pm[0].args[1])) if not isinstance(d, tuple)]
         ok = len(cy) == 1 and isinstance(cy[0], ast.BinOp) and isinstance(cy[0].op, ast.Sub) and U(cy[0].left) == "targets" and "mean(features)" in U(cy[0].right)
     rep.put(ok, "S2", "agreement", "cholesky_computations: P = solve_triangular(L, Y - mean(X), lower=True), column by column", g, None, "")
     h = P.func(MODP + "cholesky_update")
-    bad = _depends(h, ["lscal", "lsqscal"], ["target", "pred_mat"])
+    sqv = vars_assigned_from(h, lambda v: any(isinstance(x, ast.Call) and fn_name(x) == "sqrt" for x in ast.walk(v)))
+    mxv = vars_assigned_from(h, lambda v: isinstance(v, ast.Call) and fn_name(v) == "maximum")
+    bad = _depends(h, sqv + mxv, ["target", "pred_mat"])
     rep.put(not bad, "S2", "noninterference", "cholesky_update: the new diagonal entry does not depend on the targets", h, None, "", str(bad))
 
 
@@ -107,15 +114,17 @@ def s3(ctx, rep):
     P = ctx.P
     g = P.func(MODP + "sample_and_cholesky_update")
     call = [x for x in walk_shallow(g.node) if isinstance(x, ast.Call) and fn_name(x) == "cholesky_update"]
-    ok = len(call) == 1 and U(kwarg(call[0], "lvec")) == "lvec" and U(kwarg(call[0], "target")) == "target" and \
-        U(kwarg(call[0], "feature")) == "feature" and U(kwarg(call[0], "chol_fact")) == "chol_fact" and U(kwarg(call[0], "pred_mat")) == "pred_mat"
+    lvn = var_from_call(g, "_compute_lvec")
     r = returns_of(g)
-    ok = ok and len(r) == 1 and U(r[0].value.elts[-1]) == "target"
-    lv = [d for d in local_defs(g, "lvec") if not isinstance(d, tuple)]
-    ok = ok and len(lv) == 1 and fn_name(lv[0]) == "_compute_lvec"
+    tgn = U(r[0].value.elts[-1]) if len(r) == 1 and isinstance(r[0].value, ast.Tuple) else "?"
+    ok = len(call) == 1 and lvn is not None and U(kwarg(call[0], "lvec")) == lvn and U(kwarg(call[0], "target")) == tgn and \
+        U(kwarg(call[0], "feature")) == "feature" and U(kwarg(call[0], "chol_fact")) == "chol_fact" and U(kwarg(call[0], "pred_mat")) == "pred_mat"
+    tdef = [d for d in local_defs(g, tgn) if not isinstance(d, tuple)]
+    ok = ok and len(tdef) == 1 and any(isinstance(x, ast.Call) and fn_name(x) == "multiply" for x in ast.walk(tdef[0]))
     rep.put(ok, "S3", "agreement", "sample_and_cholesky_update: updates with the column it computed and the target it sampled, and returns that target", g,
             call[0] if call else None, "", "the state is updated with a different target (or column) than the one sampled and returned")
-    fn = [d for d in local_defs(g, "features_new") if not isinstance(d, tuple)]
+    fnn = U(r[0].value.elts[2]) if len(r) == 1 and isinstance(r[0].value, ast.Tuple) and len(r[0].value.elts) >= 3 else "?"
+    fn = [d for d in local_defs(g, fnn) if not isinstance(d, tuple)]
     ok = len(fn) == 1 and U(fn[0]).replace(" ", "") == "anp.concatenate([features,feature],axis=0)"
     rep.put(ok, "S3", "agreement", "sample_and_cholesky_update: the new feature row is appended last", g, None, "")
 
